@@ -222,6 +222,7 @@ inline MtProg decode_mt(hz::Reader &r, bool bounded) {
     for (unsigned i = 0; i < nc; i++) { Party x; x.flavour = (uint8_t)r.mod(2); x.count = 0; x.yields = (uint8_t)r.mod(3); p.cons.push_back(x); }
     for (unsigned k = 0; k < total; k++) p.cons[r.mod(nc)].count++;
     if (!bounded && r.mod(3) == 0) p.unblocks = (uint8_t)(1 + r.mod(2));
+    if (bounded && r.mod(3) == 1) p.unblocks = (uint8_t)(1 + r.mod(2));      // bounded queue: unblock_push(e) calls
     return p;
 }
 inline std::string describe_mt(const MtProg &p) {
@@ -229,7 +230,8 @@ inline std::string describe_mt(const MtProg &p) {
     if (p.limit) d << "limited_queue<int>(limit " << (unsigned)p.limit << "), threads:"; else d << "queue<int>, threads:";
     for (size_t i = 0; i < p.prod.size(); i++) d << " P" << (unsigned)i << "[" << (p.prod[i].flavour ? "blocking" : "coroutine") << " x" << (unsigned)p.prod[i].count << ", yield*" << (unsigned)p.prod[i].yields << "]";
     for (size_t i = 0; i < p.cons.size(); i++) d << " C" << (unsigned)i << "[" << (p.cons[i].flavour ? "pop().wait()" : "co_await pop()") << " x" << (unsigned)p.cons[i].count << ", yield*" << (unsigned)p.cons[i].yields << "]";
-    if (p.unblocks) d << " + another thread calls unblock_pop(e) x" << (unsigned)p.unblocks << " (a failed pop is retried)";
+    if (p.unblocks && !p.limit) d << " + another thread calls unblock_pop(e) x" << (unsigned)p.unblocks << " (a failed pop is retried)";
+    if (p.unblocks && p.limit) d << " + another thread calls unblock_push(e) x" << (unsigned)p.unblocks << " (a failed push - its item was withdrawn - is retried)";
     return d.s;
 }
 
@@ -242,6 +244,7 @@ struct MtRun {
     struct PushRec { int v; int t_begin, t_end; };
     std::vector<std::vector<PushRec>> pushed;
     std::vector<int> exc_seen;              // per consumer: pops that failed with the unblock exception
+    std::vector<int> push_exc_seen;         // per producer: pushes that failed with the unblock exception (item withdrawn, pushed again)
     int unblock_true = 0;
 
     cocls::async<void> prod_coro(int i) {
@@ -249,7 +252,11 @@ struct MtRun {
         for (int k = 0; k < x.count; k++) {
             hz::upoints(x.yields);
             PushRec rec{i * 1000 + k, hz::tick(), 0};
-            if constexpr (BOUNDED) co_await q->push(rec.v);
+            if constexpr (BOUNDED) {
+                bool failed = false;
+                try { co_await q->push(rec.v); } catch (const val::TestExc &) { failed = true; }
+                if (failed) { push_exc_seen[(size_t)i]++; k--; continue; }
+            }
             else co_await q->push(rec.v);
             rec.t_end = hz::tick();
             pushed[(size_t)i].push_back(rec);
@@ -261,7 +268,8 @@ struct MtRun {
         for (int k = 0; k < x.count; k++) {
             hz::upoints(x.yields);
             PushRec rec{i * 1000 + k, hz::tick(), 0};
-            if constexpr (BOUNDED) q->push(rec.v).wait(); else q->push(rec.v);
+            if constexpr (BOUNDED) { try { q->push(rec.v).wait(); } catch (const val::TestExc &) { push_exc_seen[(size_t)i]++; k--; continue; } }
+            else q->push(rec.v);
             rec.t_end = hz::tick();
             pushed[(size_t)i].push_back(rec);
         }
@@ -286,8 +294,11 @@ struct MtRun {
     void run(const MtProg &prog) {
         p = &prog;
         if constexpr (BOUNDED) q.reset(new Q(prog.limit)); else q.reset(new Q());
-        got.resize(prog.cons.size()); pushed.resize(prog.prod.size()); exc_seen.assign(prog.cons.size(), 0);
+        got.resize(prog.cons.size()); pushed.resize(prog.prod.size()); exc_seen.assign(prog.cons.size(), 0); push_exc_seen.assign(prog.prod.size(), 0);
         std::vector<std::thread> th;
+        if constexpr (BOUNDED) if (prog.unblocks) th.emplace_back([this, &prog] {
+            for (unsigned k = 0; k < prog.unblocks; k++) { hz::upoints(1 + k); bool r = q->unblock_push(std::make_exception_ptr(val::TestExc(9))); if (r) unblock_true++; }
+        });
         if constexpr (!BOUNDED) if (prog.unblocks) th.emplace_back([this, &prog] {
             for (unsigned k = 0; k < prog.unblocks; k++) { hz::upoints(1 + k); bool r = q->unblock_pop(std::make_exception_ptr(val::TestExc(9))); if (r) unblock_true++; }
         });
@@ -317,8 +328,10 @@ struct MtRun {
             for (auto &va : pushed) for (auto &a : va) for (auto &vb : pushed) for (auto &b : vb)
                 if (a.t_end < b.t_begin) HZ_CHECK(pos[a.v] < pos[b.v], "single consumer received %d (pushed t=%d..%d) after %d (pushed t=%d..%d)", a.v, a.t_begin, a.t_end, b.v, b.t_begin, b.t_end);
         }
+        int push_exc_total = 0; for (int e : push_exc_seen) push_exc_total += e;
+        if constexpr (BOUNDED) HZ_CHECK(push_exc_total == unblock_true, "unblock_push reported success %d times but %d pushes failed with its exception (exactly the oldest blocked push must fail)", unblock_true, push_exc_total);
         int exc_total = 0; for (int e : exc_seen) exc_total += e;
-        HZ_CHECK(exc_total == unblock_true, "unblock_pop reported success %d times but %d pops failed with its exception (exactly the oldest waiting pop must fail)", unblock_true, exc_total);
+        if constexpr (!BOUNDED) HZ_CHECK(exc_total == unblock_true, "unblock_pop reported success %d times but %d pops failed with its exception (exactly the oldest waiting pop must fail)", unblock_true, exc_total);
         HZ_CHECK(q->empty() && q->size() == 0, "queue not empty after every item was consumed (size %zu)", q->size());
         q.reset();
     }
